@@ -164,6 +164,7 @@ def Gen.pendingMid : Gen → Option Nat
       | .yld m => m.mid
       | _ => none
   | .list _ => none
+  | .fresh _ => none
   | .chain cur _ => cur.pendingMid
 
 /-! ## bundler operations (bundlers.py), returning the documents through the engine state -/
